@@ -79,6 +79,12 @@ impl Gen {
             let n = 1 + self.s.below(3) as u8;
             self.ops.push(NetOp::SendErr { ep, n });
         }
+        if self.dup > 0 && self.s.chance(self.dup, 2000) {
+            // a long-delayed copy of something delivered earlier (often one of the very first datagrams)
+            let dir = self.s.below(2) as u8;
+            let pick = if self.s.chance(1, 2) { self.s.below(6) as i32 } else { -1 - self.s.below(20) as i32 };
+            self.ops.push(NetOp::Redeliver { dir, pick });
+        }
     }
     fn send(&mut self, ep: u8) {
         let vital = self.s.chance(self.vital_pct, 100);
@@ -456,6 +462,7 @@ pub fn simplify_op(op: &NetOp) -> Vec<NetOp> {
         NetOp::Deliver { dir, pick } if pick != 0 => v.push(NetOp::Deliver { dir, pick: 0 }),
         NetOp::Drop { dir, pick } if pick != 0 => v.push(NetOp::Drop { dir, pick: 0 }),
         NetOp::Dup { dir, pick } if pick != 0 => v.push(NetOp::Dup { dir, pick: 0 }),
+        NetOp::Redeliver { dir, pick } if pick != 0 => v.push(NetOp::Redeliver { dir, pick: 0 }),
         NetOp::SendErr { ep, n } if n > 1 => v.push(NetOp::SendErr { ep, n: 1 }),
         NetOp::Disconnect { ep, reason_len, tag } if reason_len > 0 => v.push(NetOp::Disconnect { ep, reason_len: 0, tag }),
         NetOp::SendConnless { ep, len, tag } if len > 0 => v.push(NetOp::SendConnless { ep, len: 0, tag }),
